@@ -179,6 +179,8 @@ def main():
 
     mod = importlib.import_module('props.' + prop.lower())
     oblist = mod.build(a.tier, seed)
+    for o in oblist:
+        o.timeout = o.timeout * float(os.environ.get('VERIF_TIMEOUT_FACTOR', '3'))      # same head-room factor as the workers (watchdog)
     obs = {o.name: o for o in oblist}
     names = [o.name for o in oblist if (a.only is None or a.only in o.name)]
     if a.list:
